@@ -1995,7 +1995,11 @@ def dask_groupby_agg(
             # along the reduced axis
             # TODO: this logic is very specialized for the resampling case
             slices = slices_from_chunks(tuple(array.chunks[ax] for ax in axis))
-            groups_in_block = tuple(_unique(by_input[slc]) for slc in slices)
+            if sort:
+                groups_in_block = tuple(_unique(by_input[slc]) for slc in slices)
+            else:
+                # with sort=False every block lists its groups in order of first appearance
+                groups_in_block = tuple(pd.unique(by_input[slc].reshape(-1)) for slc in slices)
             groups = (np.concatenate(groups_in_block),)
             ngroups_per_block = tuple(len(grp) for grp in groups_in_block)
             group_chunks = (ngroups_per_block,)
